@@ -11,6 +11,7 @@ import (
 	"math"
 	"os"
 	"strconv"
+	"strings"
 	"sync"
 	"sync/atomic"
 
@@ -225,6 +226,7 @@ func replayEdits(rep *run.Report, batch []editCase, prop string, serModes int) {
 			c := &batch[i]
 			hk := histKind(c.hist)
 			cfg := editCfg{AVX512: avx512, Copy: c.copy, Hist: fmt.Sprint(c.hist)}
+			sigPrefix := ""
 			fail := func(aspect, want, got, detail string) {
 				if !relevant(prop, aspect, hk) {
 					rep.Count("other_property_mismatch_"+aspect, 1)
@@ -234,7 +236,7 @@ func replayEdits(rep *run.Report, batch []editCase, prop string, serModes int) {
 				if p == "ALL" {
 					p = "C??"
 				}
-				rep.Add(run.Mismatch{Property: p, Sig: aspect + ":" + string(c.text0) + ":" + cfg.Hist + fmt.Sprintf(":copy=%v", c.copy),
+				rep.Add(run.Mismatch{Property: p, Sig: sigPrefix + aspect + ":" + string(c.text0) + ":" + cfg.Hist + fmt.Sprintf(":copy=%v", c.copy),
 					Input: run.Hex(c.text0), Text: string(c.text0), Cfg: cfg, Want: want, Got: got, Detail: detail,
 					Extra: map[string]string{"aspect": aspect, "history_kind": hk}})
 			}
@@ -381,7 +383,13 @@ func replayEdits(rep *run.Report, batch []editCase, prop string, serModes int) {
 					it2 := pj2.Iter()
 					mb2, _ := it2.MarshalJSON()
 					if !bytes.Equal(mb2, mb) {
+						// a float negative zero is written "-0" (as encoding/json does, C18), which is an INTEGER literal to the parser
+						// (C03): the re-parsed document prints "0".  Known finding kf-negative-zero-fixed-point; any other difference is not.
+						if bytes.Equal(dropNegZero(mb), mb2) {
+							sigPrefix = "fixed-point-negative-zero-float:"
+						}
 						fail("marshal", "fixed point "+string(mb), string(mb2), "marshal(parse(marshal(x)))")
+						sigPrefix = ""
 					}
 				}
 			}
@@ -487,6 +495,34 @@ func replayEdits(rep *run.Report, batch []editCase, prop string, serModes int) {
 }
 
 var marshalDrift, marshalRefused, marshalAnswered int64
+
+// dropNegZero rewrites every number token "-0" of a marshalled text as "0" (strings never contain a raw quote-free "-0" token
+// boundary: a token starts after [ , : or a newline and ends before , ] } or a newline).
+func dropNegZero(b []byte) []byte {
+	var out []byte
+	inStr := false
+	for i := 0; i < len(b); i++ {
+		c := b[i]
+		if inStr {
+			out = append(out, c)
+			if c == '\\' && i+1 < len(b) {
+				i++
+				out = append(out, b[i])
+			} else if c == '"' {
+				inStr = false
+			}
+			continue
+		}
+		if c == '"' {
+			inStr = true
+		}
+		if c == '-' && i+1 < len(b) && b[i+1] == '0' && (i+2 == len(b) || strings.IndexByte(",]}\n", b[i+2]) >= 0) {
+			continue // drop the sign
+		}
+		out = append(out, c)
+	}
+	return out
+}
 
 // absAt is the value at path p = [root, member index, ...] of docs.
 func absAt(docs []abs.Value, p []int) abs.Value {
